@@ -341,8 +341,37 @@ def check_hy_equation(ctx, it, q, f, loop):
     yname = upd.targets[0].id
     quot = quot if quot is not None else upd.value.right
     num, den = quot.left, quot.right
+    if isinstance(num, ast.BinOp) and isinstance(num.op, ast.Mult) and isinstance(den, ast.Name):
+        # y - c * f / df: a damped (or over-relaxed) step.  With the routine's absolute stopping test taken before the
+        # last update and its fixed tiny start value, the iterate that is returned is then not the Newton iterate
+        names_ = [x for x in (num.left, num.right) if isinstance(x, ast.Name) and isinstance(env.get(x.id), Num) and nf.depends(env[x.id].nf, "y")]
+        if len(names_) == 1:
+            ctx.bad(
+                "C06-h", q + ":Newton update", f"{f.file}:{upd.lineno}",
+                "the iterate is updated by the full Newton step y - f / f' (the published Hall-Yarbrough iteration)",
+                signature="relaxed update " + ast.unparse(quot)[:60], update=ast.unparse(upd)[:120],
+            )
+            num = names_[0]
     if not (isinstance(num, ast.Name) and isinstance(den, ast.Name) and isinstance(env.get(num.id), Num) and isinstance(env.get(den.id), Num)):
-        raise AnalysisError(f"{q}: residual / derivative of the Newton update are not named locals")
+        # residual and derivative are not both plain locals (local functions, an inlined quotient): the step itself is
+        # compared - the iterate after the body, in terms of the iterate before it, is y - f_pub / f_pub'
+        ynew_ = env.get(yname)
+        if not isinstance(ynew_, Num) or not nf.depends(ynew_.nf, yname):
+            raise AnalysisError(f"{q}: residual / derivative of the Newton update are not named locals")
+        ren = {yname: y}
+        step = nf.sub(y, nf.subst_sym(ynew_.nf, ren))
+        where = f"{f.file}:{loop.lineno}"
+        ctx.identity(
+            "C06-h", q + ":Newton step", where,
+            "the step taken in the loop body is f / f' with f the published Hall-Yarbrough equation in the reduced density y (t = 1/T_r) and f' its exact y-derivative",
+            step, nf.div(f_pub, nf.diff(f_pub, "y")),
+        )
+        rv = p.value.nf if isinstance(p.value, Num) else {}
+        ctx.identity(
+            "C06-h", q + ":returned Z", f.where(), "the returned value is Z = 0.06125 p t exp(-1.2 (1 - t)^2) / y with y the iterate after the update",
+            nf.subst_sym(rv, ren), nf.div(nf.mul(A, pr), nf.sub(y, step)),
+        )
+        return
     F_, D_ = env[num.id].nf, env[den.id].nf
     ren = {yname: y}
     F_, D_ = nf.subst_sym(F_, ren), nf.subst_sym(D_, ren)
